@@ -98,7 +98,8 @@ def canon(x):
     if isinstance(x, MeasurementOutcomeDistribution):
         return {"distribution": [[list(map(int, k)), round(float(v), 12)] for k, v in x.distribution_dict.items()]}
     if isinstance(x, Wavefunction):
-        return {"wavefunction": [canon(x[i]) for i in range(len(x))]}
+        # what indexing hands out is observable too: a sympy number is not a numpy scalar (a later symbolic assignment works on one store and not on the other)
+        return {"wavefunction": [canon(x[i]) for i in range(len(x))], "entry_kinds": ["sympy" if isinstance(x[i], sympy.Basic) else "numpy" if isinstance(x[i], (np.generic, np.ndarray)) else type(x[i]).__name__ for i in range(len(x))]}
     if isinstance(x, ExpectationValues):
         return {"values": canon(np.asarray(x.values)), "correlations": canon(x.correlations), "covariances": canon(x.estimator_covariances)}
     if isinstance(x, Parities):
